@@ -6,7 +6,9 @@ import (
 	"errors"
 	"fmt"
 	"math/rand/v2"
+	"os"
 	"sort"
+	"strings"
 
 	"reduction.dev/reduction/dkv/kv"
 	"reduction.dev/reduction/dkv/sst"
@@ -323,4 +325,45 @@ func joinMax(ss []string, n int) string {
 		out += s
 	}
 	return out
+}
+
+// debugDumpDisk (VERIF_NEEDLE=a,b set, run violated): where on the simulated disk do
+// entries whose key contains one of the needles live - diagnosis aid only.
+var debugDisk *sim.Disk
+
+func debugDumpDisk(c *sim.Ctx, disk *sim.Disk) {
+	nd := os.Getenv("VERIF_NEEDLE")
+	if nd == "" || !c.Violated() || disk == nil {
+		return
+	}
+	needles := strings.Split(nd, ",")
+	for _, p := range disk.Paths() {
+		raw, _ := disk.ReadRaw(p)
+		switch {
+		case strings.HasSuffix(p, ".sst"):
+			ents, err := decodeTableFile(raw)
+			if err != nil {
+				fmt.Fprintf(os.Stderr, "DUMP %s: %v\n", p, err)
+				continue
+			}
+			for _, e := range ents {
+				for _, n := range needles {
+					if strings.Contains(e.key, n) {
+						fmt.Fprintf(os.Stderr, "DUMP %s key=%q seq=%d del=%v val=%q (by %s)\n", p, e.key, e.seq, e.del, e.val, disk.WhoWrote(p))
+					}
+				}
+			}
+			if len(ents) > 0 {
+				fmt.Fprintf(os.Stderr, "DUMP %s %d entries [%q .. %q]\n", p, len(ents), ents[0].key, ents[len(ents)-1].key)
+			}
+		case strings.HasSuffix(p, "checkpoints"):
+			fmt.Fprintf(os.Stderr, "DUMP %s: %s\n", p, raw)
+		case strings.HasSuffix(p, ".wal"):
+			for _, n := range needles {
+				if bytes.Contains(raw, []byte(n)) {
+					fmt.Fprintf(os.Stderr, "DUMP %s (%d bytes) contains %q\n", p, len(raw), n)
+				}
+			}
+		}
+	}
 }
